@@ -1,9 +1,14 @@
-//! PKWare compression implementation using implode crate for MPQ archives
+//! PKWare DCL compression for MPQ archives
+//!
+//! Compression is delegated to the pklib crate. Decompression is implemented here:
+//! the stream comes from untrusted archives, so the decoder has to reject every
+//! malformed stream with an error, and it has to support both literal modes.
 
 use crate::Result;
 use crate::compression::error_helpers::{compression_error, decompression_error};
-use implode::exploder::Exploder;
-use implode::symbol::DEFAULT_CODE_TABLE;
+use pklib::tables::{
+    CH_BITS_ASC, CH_CODE_ASC, DIST_BITS, DIST_CODE, EX_LEN_BITS, LEN_BASE, LEN_BITS, LEN_CODE,
+};
 use pklib::{CompressionMode, DictionarySize, implode_bytes};
 
 /// Compress data using PKWare DCL algorithm
@@ -19,7 +24,107 @@ pub(crate) fn compress(data: &[u8]) -> Result<Vec<u8>> {
         .map_err(|e| compression_error("PKWare", e))
 }
 
-/// Decompress PKWare compressed data using implode crate (for MPQ archives)
+/// Longest code of the literal, length and distance code sets
+const LITERAL_CODE_BITS: u32 = 13;
+const LENGTH_CODE_BITS: u32 = 7;
+const DISTANCE_CODE_BITS: u32 = 8;
+
+/// Copy length that marks the end of the stream
+const END_OF_STREAM_LENGTH: usize = 519;
+
+/// Lookup table for one of the fixed prefix code sets of the format
+///
+/// The tables of the format store every code in the bit order of the stream (first
+/// bit of the code in the lowest bit), so the next `width` bits of the stream can be
+/// used as an index directly. Every entry holds the symbol and the length of its code;
+/// a length of 0 marks a bit pattern that no code starts with.
+struct CodeTable {
+    width: u32,
+    entries: Vec<(u16, u8)>,
+}
+
+impl CodeTable {
+    fn new(codes: impl Iterator<Item = (u16, u8)>, width: u32) -> Self {
+        let mut entries = vec![(0u16, 0u8); 1 << width];
+        for (symbol, (code, bits)) in codes.enumerate() {
+            let bits_u32 = u32::from(bits);
+            if bits_u32 == 0 || bits_u32 > width || u32::from(code) >> bits_u32 != 0 {
+                continue;
+            }
+            let mut index = code as usize;
+            while index < entries.len() {
+                entries[index] = (symbol as u16, bits);
+                index += 1 << bits_u32;
+            }
+        }
+        Self { width, entries }
+    }
+}
+
+/// Reads the stream bit by bit, lowest bit of every byte first
+struct BitReader<'a> {
+    data: &'a [u8],
+    pos: usize,
+    buffer: u64,
+    available: u32,
+}
+
+impl<'a> BitReader<'a> {
+    fn new(data: &'a [u8]) -> Self {
+        Self {
+            data,
+            pos: 0,
+            buffer: 0,
+            available: 0,
+        }
+    }
+
+    /// Look at the next `count` (at most 16) bits; bits past the end of the data read as 0
+    fn peek(&mut self, count: u32) -> u32 {
+        while self.available <= 48 && self.pos < self.data.len() {
+            self.buffer |= u64::from(self.data[self.pos]) << self.available;
+            self.pos += 1;
+            self.available += 8;
+        }
+        (self.buffer & ((1u64 << count) - 1)) as u32
+    }
+
+    /// Remove `count` bits that were looked at before
+    fn consume(&mut self, count: u32) -> Result<()> {
+        if count > self.available {
+            return Err(decompression_error(
+                "PKWare",
+                "compressed stream is truncated",
+            ));
+        }
+        self.buffer >>= count;
+        self.available -= count;
+        Ok(())
+    }
+
+    fn read(&mut self, count: u32) -> Result<u32> {
+        let value = self.peek(count);
+        self.consume(count)?;
+        Ok(value)
+    }
+
+    fn decode(&mut self, table: &CodeTable) -> Result<usize> {
+        let (symbol, bits) = table.entries[self.peek(table.width) as usize];
+        if bits == 0 {
+            return Err(decompression_error(
+                "PKWare",
+                "invalid code in compressed stream",
+            ));
+        }
+        self.consume(u32::from(bits))?;
+        Ok(symbol as usize)
+    }
+}
+
+/// Decompress PKWare DCL compressed data
+///
+/// The stream starts with the literal mode (0 = plain bytes, 1 = coded literals) and
+/// the number of low distance bits (4..=6). At most `expected_size` bytes are produced.
 pub(crate) fn decompress(data: &[u8], expected_size: usize) -> Result<Vec<u8>> {
     // Handle empty data
     if data.is_empty() {
@@ -33,33 +138,89 @@ pub(crate) fn decompress(data: &[u8], expected_size: usize) -> Result<Vec<u8>> {
         &data[..std::cmp::min(16, data.len())]
     );
 
-    // Use the implode crate for PKWare decompression in MPQ archives
-    // Based on the working implementation in msierks/mpq-rust
-    let mut exploder = Exploder::new(&DEFAULT_CODE_TABLE);
-    let mut output = Vec::with_capacity(expected_size);
-    let mut input_pos = 0;
-    let mut total_output = 0;
+    if data.len() < 2 {
+        return Err(decompression_error(
+            "PKWare",
+            "compressed stream is truncated",
+        ));
+    }
 
-    while !exploder.ended && input_pos < data.len() && total_output < expected_size {
-        let remaining_input = &data[input_pos..];
+    let literal_table = match data[0] {
+        0 => None,
+        1 => Some(CodeTable::new(
+            CH_CODE_ASC.iter().copied().zip(CH_BITS_ASC.iter().copied()),
+            LITERAL_CODE_BITS,
+        )),
+        mode => {
+            return Err(decompression_error(
+                "PKWare",
+                format!("invalid literal mode {mode}"),
+            ));
+        }
+    };
 
-        match exploder.explode_block(remaining_input) {
-            Ok((consumed, output_block)) => {
-                input_pos += consumed;
+    let dictionary_bits = u32::from(data[1]);
+    if !(4..=6).contains(&dictionary_bits) {
+        return Err(decompression_error(
+            "PKWare",
+            format!("invalid dictionary size bits {dictionary_bits}"),
+        ));
+    }
 
-                // Copy output block to our buffer
-                let copy_len = std::cmp::min(output_block.len(), expected_size - total_output);
-                output.extend_from_slice(&output_block[..copy_len]);
-                total_output += copy_len;
+    let length_table = CodeTable::new(
+        LEN_CODE
+            .iter()
+            .map(|&code| u16::from(code))
+            .zip(LEN_BITS.iter().copied()),
+        LENGTH_CODE_BITS,
+    );
+    let distance_table = CodeTable::new(
+        DIST_CODE
+            .iter()
+            .map(|&code| u16::from(code))
+            .zip(DIST_BITS.iter().copied()),
+        DISTANCE_CODE_BITS,
+    );
 
-                log::debug!(
-                    "PKWare explode block: consumed {consumed} bytes, produced {copy_len} bytes, total output: {total_output}"
-                );
-            }
-            Err(e) => {
-                log::error!("PKWare decompression failed at input position {input_pos}: {e:?}");
-                return Err(decompression_error("PKWare", format!("{e:?}")));
-            }
+    let mut reader = BitReader::new(&data[2..]);
+
+    // The expected size is untrusted as well: reserve no more than the stream can
+    // produce (a copy of up to 518 bytes takes at least 2 bytes), the vector grows as needed
+    let mut output = Vec::with_capacity(expected_size.min(data.len().saturating_mul(259)));
+
+    while output.len() < expected_size {
+        if reader.read(1)? == 0 {
+            // Literal byte
+            let literal = match &literal_table {
+                Some(table) => reader.decode(table)?,
+                None => reader.read(8)? as usize,
+            };
+            output.push(literal as u8);
+            continue;
+        }
+
+        // Copy of earlier output
+        let length_symbol = reader.decode(&length_table)?;
+        let extra = reader.read(u32::from(EX_LEN_BITS[length_symbol]))? as usize;
+        let length = usize::from(LEN_BASE[length_symbol]) + extra + 2;
+        if length == END_OF_STREAM_LENGTH {
+            break;
+        }
+
+        let low_bits = if length == 2 { 2 } else { dictionary_bits };
+        let distance_symbol = reader.decode(&distance_table)?;
+        let distance = ((distance_symbol << low_bits) | reader.read(low_bits)? as usize) + 1;
+        if distance > output.len() {
+            return Err(decompression_error(
+                "PKWare",
+                "copy distance reaches before the start of the output",
+            ));
+        }
+
+        // Source and destination may overlap, so copy byte by byte
+        let start = output.len() - distance;
+        for index in start..start + length.min(expected_size - output.len()) {
+            output.push(output[index]);
         }
     }
 
